@@ -13,9 +13,10 @@ LS_TYPES = """
 typedef bool value_type;
 typedef struct { size_type data_; size_type size_; } LogicStack;   /* data_{0}, size_{0}; bound in bindings.cc */
 /* ---- abstract view: a sequence of `size_` booleans, index 0 = deepest, top = index size_-1 = least significant bit */
-#define LS_ELEM(data, size, i) ((i) < (size) && (((data) >> (((size) - (i) - 1u) & 31u)) & 1u) != 0)   /* total: shift distance masked, false outside the stack */
-#define LS_WF(data, size) ((size) <= 32u && ((size) == 32u || ((data) >> (size)) == 0u))
-#define ALL32(P) (P(0)&&P(1)&&P(2)&&P(3)&&P(4)&&P(5)&&P(6)&&P(7)&&P(8)&&P(9)&&P(10)&&P(11)&&P(12)&&P(13)&&P(14)&&P(15)&&P(16)&&P(17)&&P(18)&&P(19)&&P(20)&&P(21)&&P(22)&&P(23)&&P(24)&&P(25)&&P(26)&&P(27)&&P(28)&&P(29)&&P(30)&&P(31))
+#define LS_ELEM(data, size, i) ((i) < (size) && (((data) >> (((size) - (i) - 1u) & 63u)) & 1u) != 0)   /* total: shift distance masked, false outside the stack */
+#define LS_DEPTH 64u   /* LogicStack::max_stack_depth() == sizeof(size_type) * 8; asserted against the extracted function in unit c10_ls_max_depth */
+#define LS_WF(data, size) ((size) <= LS_DEPTH && ((size) == LS_DEPTH || ((data) >> (size)) == 0u))
+#define ALLPOS(P) (P(0)&&P(1)&&P(2)&&P(3)&&P(4)&&P(5)&&P(6)&&P(7)&&P(8)&&P(9)&&P(10)&&P(11)&&P(12)&&P(13)&&P(14)&&P(15)&&P(16)&&P(17)&&P(18)&&P(19)&&P(20)&&P(21)&&P(22)&&P(23)&&P(24)&&P(25)&&P(26)&&P(27)&&P(28)&&P(29)&&P(30)&&P(31)&&P(32)&&P(33)&&P(34)&&P(35)&&P(36)&&P(37)&&P(38)&&P(39)&&P(40)&&P(41)&&P(42)&&P(43)&&P(44)&&P(45)&&P(46)&&P(47)&&P(48)&&P(49)&&P(50)&&P(51)&&P(52)&&P(53)&&P(54)&&P(55)&&P(56)&&P(57)&&P(58)&&P(59)&&P(60)&&P(61)&&P(62)&&P(63))   /* one conjunct per possible stack position (64) */
 """
 
 LS_RULES = [
@@ -51,30 +52,30 @@ LS_OPS = {
             ["__CPROVER_return_value == LS_ELEM(self->data_, self->size_, self->size_ - 1u)"]),
     "index": (r"CELER_FUNCTION auto LogicStack::operator\[\]\(size_type index\) const -> value_type", "bool LS_index(LogicStack const* self, size_type index)", "index < self->size_", "",
               ["__CPROVER_return_value == LS_ELEM(self->data_, self->size_, index)"]),
-    "push": (r"CELER_FUNCTION void LogicStack::push\(value_type v\)", "void LS_push(LogicStack* self, value_type v)", "self->size_ != 32u", "self->data_, self->size_",
+    "push": (r"CELER_FUNCTION void LogicStack::push\(value_type v\)", "void LS_push(LogicStack* self, value_type v)", "self->size_ != LS_DEPTH", "self->data_, self->size_",
              ["self->size_ == %s + 1u" % OLD_S,
               "LS_ELEM(self->data_, self->size_, self->size_ - 1u) == v",
-              "#define P_(i) ((i) < %s ==> LS_ELEM(self->data_, self->size_, i) == LS_ELEM(%s, %s, i))\nALL32(P_)" % (OLD_S, OLD_D, OLD_S),
+              "#define P_(i) ((i) < %s ==> LS_ELEM(self->data_, self->size_, i) == LS_ELEM(%s, %s, i))\nALLPOS(P_)" % (OLD_S, OLD_D, OLD_S),
               "LS_WF(self->data_, self->size_)"]),
     "pop": (r"CELER_FUNCTION auto LogicStack::pop\(\) -> value_type", "bool LS_pop(LogicStack* self)", "self->size_ != 0", "self->data_, self->size_",
             ["self->size_ == %s - 1u" % OLD_S,
              "__CPROVER_return_value == LS_ELEM(%s, %s, %s - 1u)" % (OLD_D, OLD_S, OLD_S),
-             "#define P_(i) ((i) < self->size_ ==> LS_ELEM(self->data_, self->size_, i) == LS_ELEM(%s, %s, i))\nALL32(P_)" % (OLD_D, OLD_S),
+             "#define P_(i) ((i) < self->size_ ==> LS_ELEM(self->data_, self->size_, i) == LS_ELEM(%s, %s, i))\nALLPOS(P_)" % (OLD_D, OLD_S),
              "LS_WF(self->data_, self->size_)"]),
     "apply_not": (r"CELER_FUNCTION void LogicStack::apply_not\(\)", "void LS_apply_not(LogicStack* self)", "self->size_ != 0", "self->data_",
                   ["self->size_ == %s" % OLD_S,
                    "LS_ELEM(self->data_, self->size_, self->size_ - 1u) == !LS_ELEM(%s, %s, %s - 1u)" % (OLD_D, OLD_S, OLD_S),
-                   "#define P_(i) ((i) + 1u < self->size_ ==> LS_ELEM(self->data_, self->size_, i) == LS_ELEM(%s, %s, i))\nALL32(P_)" % (OLD_D, OLD_S),
+                   "#define P_(i) ((i) + 1u < self->size_ ==> LS_ELEM(self->data_, self->size_, i) == LS_ELEM(%s, %s, i))\nALLPOS(P_)" % (OLD_D, OLD_S),
                    "LS_WF(self->data_, self->size_)"]),
     "apply_and": (r"CELER_FUNCTION void LogicStack::apply_and\(\)", "void LS_apply_and(LogicStack* self)", "self->size_ >= 2u", "self->data_, self->size_",
                   ["self->size_ == %s - 1u" % OLD_S,
                    "LS_ELEM(self->data_, self->size_, self->size_ - 1u) == (LS_ELEM(%s, %s, %s - 1u) && LS_ELEM(%s, %s, %s - 2u))" % (OLD_D, OLD_S, OLD_S, OLD_D, OLD_S, OLD_S),
-                   "#define P_(i) ((i) + 1u < self->size_ ==> LS_ELEM(self->data_, self->size_, i) == LS_ELEM(%s, %s, i))\nALL32(P_)" % (OLD_D, OLD_S),
+                   "#define P_(i) ((i) + 1u < self->size_ ==> LS_ELEM(self->data_, self->size_, i) == LS_ELEM(%s, %s, i))\nALLPOS(P_)" % (OLD_D, OLD_S),
                    "LS_WF(self->data_, self->size_)"]),
     "apply_or": (r"CELER_FUNCTION void LogicStack::apply_or\(\)", "void LS_apply_or(LogicStack* self)", "self->size_ >= 2u", "self->data_, self->size_",
                  ["self->size_ == %s - 1u" % OLD_S,
                   "LS_ELEM(self->data_, self->size_, self->size_ - 1u) == (LS_ELEM(%s, %s, %s - 1u) || LS_ELEM(%s, %s, %s - 2u))" % (OLD_D, OLD_S, OLD_S, OLD_D, OLD_S, OLD_S),
-                  "#define P_(i) ((i) + 1u < self->size_ ==> LS_ELEM(self->data_, self->size_, i) == LS_ELEM(%s, %s, i))\nALL32(P_)" % (OLD_D, OLD_S),
+                  "#define P_(i) ((i) + 1u < self->size_ ==> LS_ELEM(self->data_, self->size_, i) == LS_ELEM(%s, %s, i))\nALLPOS(P_)" % (OLD_D, OLD_S),
                   "LS_WF(self->data_, self->size_)"]),
 }
 
@@ -112,7 +113,7 @@ def build_ls(name):
 UNITS = [
     Unit("c10_ls_" + nm, build_ls(nm), "h_ls", enforce=LS_OPS[nm][1].split("(")[0].split()[-1], timeout=120,
          must_have=[r"postcondition", r"celer_expect"], checks=["--bounds-check", "--pointer-check"],
-         note="LogicStack::%s against the abstract stack view, all 2^32 x 33 states (loop-free, complete)" % nm)
+         note="LogicStack::%s against the abstract stack view, all 2^64 x 65 states (loop-free, complete)" % nm)
     for nm in LS_OPS
 ]
 
@@ -156,7 +157,7 @@ typedef struct { SpanConstLogic logic_; } LogicEvaluator;
 
 # ghost: textbook postfix evaluation over an explicit array stack, run in lock-step
 LE_GHOST = """
-bool g_stk[33]; unsigned g_sp;      /* ghost: reference (array) stack */
+bool g_stk[65]; unsigned g_sp;      /* ghost: reference (array) stack */
 unsigned char g_depth[4097];        /* ghost: depth profile of the postfix string (precondition witness) */
 static void spec_step(logic_int lgc, SpanConstSense values)
 {
@@ -168,8 +169,8 @@ static void spec_step(logic_int lgc, SpanConstSense values)
 }
 /* well-formedness of token i given the depth before it (instance of the quantified precondition) */
 #define WF_TOKEN(lgc, d0, d1, nvalues) ( \\
-      (lgc) < logic_lbegin ? ((lgc) < (nvalues) && (d0) < 32 && (d1) == (d0) + 1) \\
-    : (lgc) == logic_ltrue ? ((d0) < 32 && (d1) == (d0) + 1) \\
+      (lgc) < logic_lbegin ? ((lgc) < (nvalues) && (d0) < 64 && (d1) == (d0) + 1) \\
+    : (lgc) == logic_ltrue ? ((d0) < 64 && (d1) == (d0) + 1) \\
     : ((lgc) == logic_lor || (lgc) == logic_land) ? ((d0) >= 2 && (d1) == (d0) - 1) \\
     : (lgc) == logic_lnot ? ((d0) >= 1 && (d1) == (d0)) : 0)
 #define REL_(i) ((i) < stack.size_ ==> LS_ELEM(stack.data_, stack.size_, i) == g_stk[i])
@@ -193,7 +194,7 @@ LE_RULES = [
     LoopContracts([
         "    __CPROVER_assigns(vi_, stack, g_sp, __CPROVER_object_whole(g_stk))\n"
         "    __CPROVER_loop_invariant(vi_ <= self->logic_.size && LS_WF(stack.data_, stack.size_) && stack.size_ == g_depth[vi_] && g_sp == stack.size_)\n"
-        "    __CPROVER_loop_invariant(ALL32(REL_))\n"
+        "    __CPROVER_loop_invariant(ALLPOS(REL_))\n"
         "    __CPROVER_decreases(self->logic_.size - vi_)\n"]),
 ]
 
@@ -206,7 +207,7 @@ def build_logic_eval(ctx):
 bool LE_call(LogicEvaluator const* self, SpanConstSense values)
 __CPROVER_requires(self != 0 && self->logic_.size >= 1 && self->logic_.size <= 4096 && __CPROVER_r_ok(self->logic_.ptr, self->logic_.size * sizeof(logic_int)))
 __CPROVER_requires(values.size <= 4096 && __CPROVER_r_ok(values.ptr, values.size * sizeof(Sense)))
-/* precondition: well-formed postfix string whose stack depth never exceeds 32 (witness: depth profile g_depth; used by instance) */
+/* precondition: well-formed postfix string whose stack depth never exceeds 64 (witness: depth profile g_depth; used by instance) */
 __CPROVER_requires(g_depth[0] == 0 && g_depth[self->logic_.size] == 1)
 __CPROVER_assigns(g_sp, __CPROVER_object_whole(g_stk))
 /* result equals the textbook array-stack evaluation run in lock-step */
@@ -229,5 +230,5 @@ UNITS += [
          checks=["--bounds-check", "--pointer-check"],
          assumptions=["well-formedness of the postfix string is used through per-token instances (ghost assume) of the depth-profile precondition",
                       "Sense values are proper bools (0/1)"],
-         note="LogicEvaluator::operator(): for every well-formed postfix string of any length <= 4096 with depth <= 32: every LogicStack precondition holds at its call site, the default branch is unreachable, the stack ends with one element and the result equals the array-stack evaluation (lock-step loop invariant over the abstract stack view)"),
+         note="LogicEvaluator::operator(): for every well-formed postfix string of any length <= 4096 with depth <= 64: every LogicStack precondition holds at its call site, the default branch is unreachable, the stack ends with one element and the result equals the array-stack evaluation (lock-step loop invariant over the abstract stack view)"),
 ]
